@@ -318,9 +318,17 @@ class Repo:
         """(argv, cwd) for starting monorail on this repository under a controller: from the repository
         root, or - after foreign_cwd() - as `-f <abs config>` from the other directory."""
         g = list(getattr(self, "global_flags", None) or [])
+        # launch_prefix: something that execs monorail after changing its process environment (resource limits)
+        pre = list(getattr(self, "launch_prefix", None) or [])
         if getattr(self, "invoke_cwd", None):
-            return [common.MONORAIL] + g + ["-f", os.path.join(self.dir, "Monorail.json")] + list(args), self.invoke_cwd
-        return [common.MONORAIL] + g + list(args), self.dir
+            return pre + [common.MONORAIL] + g + ["-f", os.path.join(self.dir, "Monorail.json")] + list(args), self.invoke_cwd
+        return pre + [common.MONORAIL] + g + list(args), self.dir
+
+    def limit_open_files(self, n):
+        """From now on monorail is started (by cmdline()) with a soft limit of n open files, like `ulimit -S -n n`."""
+        import sys
+        self.launch_prefix = [sys.executable, "-c",
+                              "import os,resource,sys; h=resource.getrlimit(resource.RLIMIT_NOFILE)[1]; resource.setrlimit(resource.RLIMIT_NOFILE,(%d,h)); os.execv(sys.argv[1], sys.argv[1:])" % n]
 
     def mr(self, *args, env=None, timeout=120, stdin=None, cwd=None, nofile=None):
         """Runs the hooks-on monorail binary in the repository; returns Result."""
